@@ -53,7 +53,8 @@ func c09gen(c *h.Ctx, yield func(*h.Case)) {
 		// that never listened
 		emitTo("corpus", "corpus-sendraw", "c09 open "+tr+" 0", "c09 send router 1 1", "c09 send raw 1 1")
 		emitTo("corpus", "corpus-root-has-no-parent", "c09 open "+tr+" 0,1", "c09 send parent - 1", "c09 send children - 1",
-			"c09 send parent 1 1", "c09 send broadcast 1,0 1", "c09 send parallel - 1", "c09 send router 1 0", "c09 selfsend 2", "c09 selfsend 0")
+			"c09 send parent 1 1", "c09 send broadcast 1,0 1", "c09 send parallel - 1", "c09 send router 1 0", "c09 selfsend 2", "c09 selfsend 0",
+			"c09 selfsend 3 1", "c09 selfsend 1 0", "c09 selfsend 4 3", "c09 selfsend 2", "c09 down 1", "c09 selfsend 3")
 		ops := []string{"c09 open " + tr + " 0,2"}
 		for _, e := range entriesSingle {
 			ops = append(ops, "c09 send "+e+" 1 1")
@@ -249,7 +250,12 @@ func c09gen(c *h.Ctx, yield func(*h.Case)) {
 				ops = append(ops, fmt.Sprintf("c09 send %s %d %d", e, d, k))
 			}
 			if e == "router" {
-				ops = append(ops, fmt.Sprintf("c09 selfsend %d", r.Intn(3)))
+				if r.Intn(3) == 0 {
+					nn := 1 + r.Intn(5)
+					ops = append(ops, fmt.Sprintf("c09 selfsend %d %d", nn, r.Intn(nn)))
+				} else {
+					ops = append(ops, fmt.Sprintf("c09 selfsend %d", r.Intn(3)))
+				}
 			}
 			emit("entry-"+e+"-"+tr, ops...)
 			continue
